@@ -26,6 +26,9 @@ FLOAT_EQUIV = [
 ]
 
 
+_CLOSURE_IDX = re.compile(r"\{closure#\d+\}")
+
+
 def norm_callee(p):
     if p is None:
         return "?"
@@ -65,7 +68,7 @@ def stmt_token(s):
     rv = s["rv"]
     txt = core.rv_str(rv)
     if rv["k"] == "aggregate" and rv.get("akind") == "closure":
-        txt = "closure " + rv.get("closure", "")
+        txt = "closure " + _CLOSURE_IDX.sub("{closure}", rv.get("closure", ""))
     return "S " + _LOCAL.sub("_", txt)
 
 
@@ -233,8 +236,24 @@ ABSORBERS = {
 
 def check_cfg_taint(ctx, res):
     fs, fn_ = ctx.facts("default"), ctx.facts("nostd")
-    ps = {x.path: x for x in fs.bodies}
-    pn = {x.path: x for x in fn_.bodies}
+
+    def keyed(bodies):
+        """closures are numbered per function in order of appearance, so a configuration-only closure shifts the numbers of the
+        others: identify a closure by its parent and source line instead"""
+        out = {}
+        cnt = {}
+        for x in bodies:
+            if x.kind == "Closure":
+                base = (x.j.get("closure_of") or x.path.rsplit("::", 1)[0], x.line)
+                k_ = cnt.get(base, 0)
+                cnt[base] = k_ + 1
+                out["%s::{closure@%s#%d}" % (base[0], base[1], k_)] = x
+            else:
+                out[x.path] = x
+        return out
+
+    ps = keyed(fs.bodies)
+    pn = keyed(fn_.bodies)
     sensitive = []
     for p, a in ps.items():
         b = pn.get(p)
